@@ -382,6 +382,18 @@ def push(run):
         run.obligation(n2, "refuted", detail="pushed outgoing weights plus final weight do not sum to one", replay=dict(replayed=False), signature="push:stochastic")
 
 
+class EpsTok(str):
+    """EPSILON as the code sees it ('' - equal to the label '' and to nothing else at Python level) that a SYMBOLIC state name may
+    also equal: from_string names its initial state '' too, so `x != EPSILON` on a state name is a real question."""
+
+    def __pyvc_eq__(self, interp, other):
+        if isinstance(other, I.Z):
+            return I.Z(other.e == I.zexpr(""))
+        return isinstance(other, str) and other == ""
+
+    __hash__ = str.__hash__
+
+
 def to_cfg(run):
     fn = source.find(BASE, "WFSA.to_cfg")
     run.function_under_contract("genlm.grammar.wfsa.base.WFSA.to_cfg", source.sha(fn))
@@ -415,13 +427,13 @@ def to_cfg(run):
             alphabet = {"a", EPS}
             for st_ in (qi, qf, p, q, p2, q2):
                 path.assume(st_.e != S0.e)      # states are not named like the start symbol (else they are renamed: wf obligation below)
-                for sym_ in alphabet:
+                for sym_ in alphabet - {EPS}:       # a state MAY be named '' (from_string's initial state): it is not a symbol of V
                     r_ = it.equals(st_, sym_)   # ... nor like an alphabet symbol (same: renaming is the wf obligation's subject)
                     if isinstance(r_, I.Z):
                         path.assume(z3.Not(r_.e))
             selfobj = Bag(R=Bag(), alphabet=alphabet, I=[(qi, wi)], F=[(qf, wf_)], states=[qi, qf, p, q, p2, q2],
                           arcs=I.Native("arcs", lambda i2, x, k: [(p, a, q, w1), (p2, EPS, q2, w2)]))
-            fobj = I.FuncObj(fn, I.Env(None, {"EPSILON": EPS}), "WFSA.to_cfg")
+            fobj = I.FuncObj(fn, I.Env(None, {"EPSILON": EpsTok("")}), "WFSA.to_cfg")
             it.call_func(fobj, [selfobj], {"S": S0, "recursion": rec_dir})
             return list(adds), made
 
@@ -440,6 +452,8 @@ def to_cfg(run):
             ok, why = _multiset_equal(have, want)
             if ok and made.get("V") != {"a"}:
                 ok, why = False, ("vocabulary", made.get("V"))
+            if not ok:
+                break               # every path must conform (a state may be named '', like EPSILON)
         if ok:
             run.obligation(name, "proved", role="auxiliary", backend="pyvc", detail="rule families: start/initial, final, symbol arcs, epsilon arcs; V = alphabet - {eps}")
         else:
